@@ -84,7 +84,7 @@ func main() {
 				exhaustive = false
 				break
 			}
-			cfg := vsched.Config{Name: sc.Name, Bound: b, Stall: 120 * time.Second, MaxExec: run.Pick(1500, 60000)}
+			cfg := vsched.Config{Name: sc.Name, Bound: b, Stall: 120 * time.Second, MaxExec: run.Pick(1500, 60000), Deadline: run.DeadlineIn(time.Duration(run.Pick(60, 240)) * time.Second)}
 			st := vsched.Explore(cfg, body(sc))
 			if st.Infra != "" {
 				if st.StallReproduced {
@@ -156,7 +156,20 @@ func racePass(run *ev.Run) {
 		return
 	}
 	if !strings.Contains(text, "RACEPASS-RUNS") {
-		ev.Fatal("race pass did not complete: %v\n%s", err, tail(text, 40))
+		// the pass died. When the Go runtime or the code under test killed it, that is the behaviour the statement
+		// excludes (the explorer above counts a panic and a deadlock the same way); race reports printed before
+		// the death are still read below
+		at := func(marker string) string { return tail(text[strings.Index(text, marker):], 40) }
+		switch {
+		case strings.Contains(text, "fatal error: concurrent map"):
+			run.Violation("race-pass-concurrent-map-access", "free-running pass: the runtime stopped the process on an unsynchronised map access:\n"+at("fatal error: concurrent map"), map[string]interface{}{"output": at("fatal error: concurrent map")})
+		case strings.Contains(text, "all goroutines are asleep"):
+			run.Violation("race-pass-deadlock", "free-running pass: every goroutine blocked, a call never returns:\n"+at("fatal error:"), map[string]interface{}{"output": at("fatal error:")})
+		case strings.Contains(text, "\npanic: ") || strings.HasPrefix(text, "panic: "):
+			run.Violation("race-pass-panic", "free-running pass: a call panicked:\n"+at("panic: "), map[string]interface{}{"output": at("panic: ")})
+		default:
+			ev.Fatal("race pass did not complete: %v\n%s", err, tail(text, 40))
+		}
 	}
 	for _, l := range strings.Split(text, "\n") {
 		if strings.HasPrefix(l, "RACEPASS-HELD-BLOCK-MODIFIED") {
